@@ -56,10 +56,10 @@ CHECKS = {
    text="For each listed (B1, B2) pair the P-1 / P+1 / ECM promise is enumerated: for EVERY prime l in (B1, reported B2] a prime p with p-1 (p+1) = s*l, s | stage-1 exponent, is constructed together with a resistant cofactor prime and the real routine must return a split containing p; for ECM the group order of the real curve modulo EVERY prime p of [2^10, 2^13/2^16) is computed with independent affine arithmetic and every promised p must be split. Every Some returned by rho/P-1/ECM over all products of primes in (1000,1400) multiplies back to n with parts > 1.",
    note="Trusted: harness primality test, affine arithmetic, baby-step giant-step order computation. For rows above 4e6 only the top 1% and the band just above B1 are enumerated (stated in the evidence).", ref="3/C16"),
  "C18": dict(cat="model_checking", engine="seq-group", tech="explicit exploration of the complete class group of every fundamental discriminant below a bound: class number from the enumeration of all reduced forms; coset-by-coset exploration of the subgroup of G x H generated by (prime form, reported coordinates); every relation-file line multiplied out with independent form arithmetic",
-   text="classgroup() is called (with an output directory) on EVERY negative fundamental discriminant below 60000 (thorough 1.5e6), with forced double large primes and with a thread pool on sub-ranges, on every fundamental D within a window of 2^k (k up to 40/44, class number by a divisor-count sieve) and on constructed discriminants of 45..128 bits. Whenever a result is returned: h equals the number of reduced forms; the cyclic factors multiply to h; the subgroup of (true class group) x (reported product of cyclic groups) generated by the pairs ([p], coordinates of p) is enumerated completely and must be the graph of a bijection (=> the reported group is isomorphic to the class group and the coordinates are a valid isomorphism); every line of relations.sieve multiplies to the principal class under the documented sign convention; classnumber / group.structure files agree with the return value. Above the enumerable range: relation lines and exact generator orders.",
+   text="classgroup() is called (with an output directory) on EVERY negative fundamental discriminant below 60000 (thorough 1.5e6), with forced double large primes and with a thread pool on sub-ranges, on every fundamental D within a window of 2^k (k up to 40/44, class number by a divisor-count sieve) and on constructed discriminants of 45..128 bits. Whenever a result is returned: h equals the number of reduced forms; the cyclic factors multiply to h; the subgroup of (true class group) x (reported product of cyclic groups) generated by the pairs ([p], coordinates of p) is enumerated completely and must be the graph of a bijection (=> the reported group is isomorphic to the class group and the coordinates are a valid isomorphism); every line of relations.sieve multiplies to the principal class under the documented sign convention; classnumber / group.structure files agree with the return value. Above the enumerable range: relation lines and exact generator orders. With a pool: loom scenarios S8/S8b/S8c run the real classgroup() with 2 workers (default, forced double large primes, reversed item order) and every interleaving within the preemption bound must give the class number and group of the single-threaded run (which this check decides).",
    note="Trusted: harness Arndt composition + Gauss reduction (self-validated on group axioms for all |D| < 1200 before every run). A panic or None is not a result (counted in the evidence). Thread-pool runs here are free-running; interleavings belong to the loom engine.", ref="3/C18"),
  "C19": dict(cat="model_checking", engine="seq-history", tech="explicit-state search over histories of elementary row/column operations applied to known diagonal forms (determinant sign, lattice index and quotient group are invariants tracked along the history) + exhaustive enumeration of small matrices, permutations, determinant bit-lengths and short linear recurrences",
-   text="Every matrix reachable within the depth bound from a set of diagonal forms (n = 2, 3, 4, 10) by row/column additions, swaps and negations is given to det_matz, GFpEchelonBuilder, dense compute_lattice_index (five brackets; with and without redundant rows), SmithNormalForm::new+reduce and SparseMat::detz; every answer is compared with the invariant known by construction (exact determinant with sign, index, primary decomposition of the quotient). Plus: EVERY 2x2 matrix over -3..3 and 3x3 over -1..1 (thorough: 3x3 over -2..2, 4x4 over -1..1) against cofactor expansion; EVERY permutation of up to 6 (8) elements scaled by primes, alone and embedded in dimension 10..12; one matrix for EVERY determinant bit-length 1..400 (1300) x 3 sub-bit variants; dense scrambles of dimension 9..60; sparse scrambles of dimension 8..250 with and without a pool; Berlekamp-Massey on every invertible recurrence of order <= 3 (4) over small fields and edge alphabets of 60/63-bit primes. A panic inside the documented precondition counts as a failure to return the value.",
+   text="Every matrix reachable within the depth bound from a set of diagonal forms (n = 2, 3, 4, 10) by row/column additions, swaps and negations is given to det_matz, GFpEchelonBuilder, dense compute_lattice_index (five brackets; with and without redundant rows), SmithNormalForm::new+reduce and SparseMat::detz; every answer is compared with the invariant known by construction (exact determinant with sign, index, primary decomposition of the quotient). Plus: EVERY 2x2 matrix over -3..3 and 3x3 over -1..1 (thorough: 3x3 over -2..2, 4x4 over -1..1) against cofactor expansion; EVERY permutation of up to 6 (8) elements scaled by primes, alone and embedded in dimension 10..12; one matrix for EVERY determinant bit-length 1..400 (1300) x 3 sub-bit variants; dense scrambles of dimension 9..60; sparse scrambles of dimension 8..250 with and without a pool; Berlekamp-Massey on every invertible recurrence of order <= 3 (4) over small fields and edge alphabets of 60/63-bit primes. A panic inside the documented precondition counts as a failure to return the value. SparseMat::detz with a pool: loom scenarios S9/S9b enumerate every arrival order of the modulus chunks (2 and 3 chunks, 2 workers) within the preemption bound.",
    note="Trusted: cofactor expansion / Bareiss / Gaussian elimination mod 2^61-1 (cross-checked against the tracked invariants on every run), textbook Berlekamp-Massey. Known findings are identified by an independently computed condition (degenerate Krylov sequence, square presentation) or by the listed failing input (known_inputs/C19.txt); any other failing input is reported.", ref="3/C19"),
  "C20": dict(cat="exploration", engine="seq-exhaustive", tech="complete enumeration of the finite configuration space (every bit length x residue class x switch; every table row; every size x transform length) against the consumers' transcribed requirements and the consumers themselves",
    text="EVERY bit length 1..512 x residue class mod 8 x double-large-prime switch: the SIQS/MPQS/QS/class-group parameter functions are evaluated and checked against their consumers' requirements; the consumers (FBase::new, select_siqs_factors, select_a, prepare_a, Poly::first/next, make_poly, SieveQS set-up) run on a representative input of every size 20..128 (thorough ..330); both stage-2 tables over a 64-points-per-octave B2 grid plus every strategy literal (d1 % 6, d2 power of two, FFT threshold, phi(d1)+2 < d2, NTT context constructible, pm1_impl run); convolve_modn dispatch for EVERY modulus size 2..500 bits x every transform size with worst-case operands.",
@@ -110,7 +110,7 @@ def main():
         },
         "engines": [
             {"name": "seq-sweep", "path": "harness/src/sweep.rs", "serves_properties": ["C01", "C02", "C03"], "kind_free_text": "subprocess-sharded bounded-exhaustive driver of factor() with crash attribution"},
-            {"name": "loom", "path": "lmharness/src/main.rs", "serves_properties": ["C04", "C05"], "kind_free_text": "loom (DPOR, preemption-bounded) exploration of the real code through the cfg-gated shim /repo/src/verif_shim.rs; one subprocess per scenario x bound; failing schedule saved as a loom checkpoint"},
+            {"name": "loom", "path": "lmharness/src/main.rs", "serves_properties": ["C04", "C05", "C18", "C19"], "kind_free_text": "loom (DPOR, preemption-bounded) exploration of the real code through the cfg-gated shim /repo/src/verif_shim.rs; one subprocess per scenario x bound; failing schedule saved as a loom checkpoint"},
             {"name": "seq-exhaustive", "path": "harness/src/", "serves_properties": ["C06", "C07", "C08", "C09", "C10", "C13", "C14", "C16", "C17", "C20"], "kind_free_text": "in-process bounded-exhaustive enumerators with reference models (harness/src/refmodel.rs), parallel over 16 cores, panics captured per case"},
             {"name": "seq-history", "path": "harness/src/c11.rs", "serves_properties": ["C11", "C12", "C19"], "kind_free_text": "explicit-state history search on real objects (fresh object per history, DFS sharded over 16 cores, canonical state hash for counting)"},
             {"name": "seq-group", "path": "harness/src/c18.rs", "serves_properties": ["C15", "C18"], "kind_free_text": "complete exploration of small finite groups as state spaces (points of a curve over F_q; form classes of a discriminant) with the real code's outputs checked against an independent group law on every state and transition"},
